@@ -27,7 +27,7 @@ import numpy as np
 from fractions import Fraction
 from . import gen
 from .lib import CoqFailure, coq_Z, coq_list, coq_bool, coq_nat
-from .pscommon import Once, run_nat_cases
+from .pscommon import Once, run_nat_cases, encode, Unencodable
 
 ATOL, RTOL = 1e-8, 1e-5
 
@@ -50,7 +50,7 @@ def dx8(dx):
     out = []
     for x in np.asarray(dx, dtype=float):
         y = x * 8
-        if abs(y - round(y)) > 1e-6: raise RuntimeError("dx not on the 1/8 grid: %r" % (dx,))
+        if not abs(y - round(y)) <= 1e-6: raise Unencodable("dx not on the 1/8 grid: %r" % (dx,))
         out.append(int(round(y)))
     return out
 
@@ -196,9 +196,10 @@ def check_pairstate(ck, rng, pool):
         e, n, z = bool(a == b), bool(a != b), bool(a.iszero())
         ad, su, xo, ng = tryop(lambda: a + b), tryop(lambda: a - b), tryop(lambda: a ^ b), -a
         zero = PairState.zero(a.i, dim)
-        terms.append("(%s, %s, %s, %s, %s, %s, %s, %s, %s, %s)" % (ps_term(a), ps_term(b), coq_bool(e), coq_bool(n), coq_bool(z),
-                                                               ops_term(ad), ops_term(su), ops_term(xo), ps_term(ng), ps_term(zero)))
-        meta.append((a, b))
+        term = encode(V(ck), "c36-unencodable-output", {"a": str(a), "b": str(b), "a+b": str(ad), "a-b": str(su), "a^b": str(xo), "-a": str(ng)},
+                      lambda: "(%s, %s, %s, %s, %s, %s, %s, %s, %s, %s)" % (ps_term(a), ps_term(b), coq_bool(e), coq_bool(n), coq_bool(z),
+                                                                        ops_term(ad), ops_term(su), ops_term(xo), ps_term(ng), ps_term(zero)))
+        if term is not None: terms.append(term); meta.append((a, b))
         kind = "ps:" + ("special" if (a.i == -1 or b.i == -1) else "eq" if e else "sub-ok" if su is not None else "xor-ok" if xo is not None else "other")
         ck.case(key=("ps", str(a), str(b)), nontrivial=not (a.iszero() and b.iszero()), kind=kind,
                 sample={"type": "PairState", "a": str(a), "b": str(b), "a==b": e, "a-b": str(su), "a^b": str(xo)} if k < 2 else None)
@@ -247,8 +248,9 @@ def check_pairstate(ck, rng, pool):
         ga_m = ga._replace(dx=np.round(ga.dx * 8) / 8) if intcart else ga
         if intcart and not np.allclose(ga.dx, ga_m.dx, atol=1e-9):
             V(ck)("PairState.g: dx is not cartrot.dx", {"crystal": nm, "a": str(a), "ga": str(ga)}, key="c36-pairstate-g-dx")
-        terms.append("(%s, %s, %s)" % (lop_term(g, perm, t, cart), ps_term(a, intcart), ps_term(ga_m, intcart)))
-        meta.append((nm, a, g))
+        term = encode(V(ck), "c36-unencodable-output", {"crystal": nm, "a": str(a), "g": str(g), "g(a)": str(ga)},
+                      lambda: "(%s, %s, %s)" % (lop_term(g, perm, t, cart), ps_term(a, intcart), ps_term(ga_m, intcart)))
+        if term is not None: terms.append(term); meta.append((nm, a, g))
         ck.case(key=("psg", nm, str(a), g.rot.tolist(), [float(x) for x in g.trans]), nontrivial=not np.array_equal(g.rot, np.eye(dim)),
                 kind="psg:%s-%s" % (nm.split("-")[0], "intcart" if intcart else "latt"),
                 sample={"type": "PairState.g", "crystal": nm, "a": str(a), "rot": g.rot.tolist(), "ga": str(ga)} if k < 1 else None)
@@ -291,10 +293,11 @@ def check_clustersite(ck, rng, pool):
         perm, t, _ = lop_of(crys, a.ci[0], g, False)
         e, n = bool(a == b), bool(a != b)
         ad, su, ng, ga = tryop(lambda: a + v), tryop(lambda: a - v), -a, a.g(crys, g)
-        terms.append("(%s, %s, %s, %s, %s, %s, %s, %s, %s, %s)" % (
+        term = encode(V(ck), "c36-unencodable-output", {"crystal": nm, "a": str(a), "b": str(b), "v": v, "a+v": str(ad), "a-v": str(su), "-a": str(ng), "g(a)": str(ga)},
+                      lambda: "(%s, %s, %s, %s, %s, %s, %s, %s, %s, %s)" % (
             cs_term(a), cs_term(b), zl(v), coq_bool(e), coq_bool(n), "None" if ad is None else "(Some %s)" % cs_term(ad),
             "None" if su is None else "(Some %s)" % cs_term(su), cs_term(ng), lop_term(g, perm, t, None), cs_term(ga)))
-        meta.append((nm, a, b, v))
+        if term is not None: terms.append(term); meta.append((nm, a, b, v))
         ck.case(key=("cs", nm, str(a), str(b), v), nontrivial=True, kind="cs:" + ("eq" if e else "ne") + ("" if len(v) == dim else "-baddim"),
                 sample={"type": "ClusterSite", "a": str(a), "b": str(b), "v": v} if k < 1 else None)
         def viol(law):
@@ -354,11 +357,12 @@ def check_cluster(ck, rng, pool):
         c1, c2, c3 = Cluster(sites, transition=t, vacancy=v), Cluster(l2, transition=t, vacancy=v), None
         e, n = bool(c1 == c2), bool(c1 != c2)
         entries = [(list(r), list(sp)) for r, sps in c1.__equalitymap__.items() for sp in sps]
-        terms.append("(%s, %s, %s, %s, %s, %s, %s, %s, %s)" % (
+        term = encode(V(ck), "c36-unencodable-output", {"mode": mode, "variant": var, "sites": [str(x) for x in sites], "cluster_sites": [str(x) for x in c1.sites]},
+                      lambda: "(%s, %s, %s, %s, %s, %s, %s, %s, %s)" % (
             coq_list([cs_term(s) for s in sites]), coq_list([cs_term(s) for s in l2]), coq_bool(t), coq_bool(v),
             coq_list([cs_term(s) for s in c1.sites]), coq_list(["(%s, %s)" % (zl(r), zl(sp)) for r, sp in entries]),
             coq_Z(c1.Norder), coq_bool(e), coq_bool(n)))
-        meta.append((nm, mode, var, sites, l2))
+        if term is not None: terms.append(term); meta.append((nm, mode, var, sites, l2))
         ck.case(key=("cl", nm, mode, [str(s) for s in sites], [str(s) for s in l2]), nontrivial=len(sites) > 1,
                 kind="cl:%s-%s-%s" % (mode, var, "eq" if e else "ne"),
                 sample={"type": "Cluster", "mode": mode, "variant": var, "sites": [str(s) for s in sites], "sites2": [str(s) for s in l2], "==": e} if k < 1 else None)
